@@ -844,6 +844,9 @@ def key_macro_failures(ctx, munits, fails, fam_index):
                 k = "macro/" + key
             else:
                 ctxt = unit_context(ds, us)
+                if ctxt == "plain" and key == "replaces-a-name-gcc-keeps/function-like":
+                    # no recursion, so gcc kept the name only because no "(" followed it when it was scanned
+                    ctxt = "name-without-arguments"
                 k = "macro/wrong/" + ctxt + ("/" + key if ctxt == "plain" else "")
         else:
             k = "macro/" + key
@@ -876,6 +879,7 @@ def run(ctx):
         for start in range(0, fam.n, batch):
             items.append((fi, start, min(fam.n, start + batch)))
     ctx.note("units_per_family", {f.name: f.n for f in fams})
+    ctx.note("macro_bound", "<=2 definitions x <=2 uses and 3 definitions x 1 use" if ctx.quick else "<=3 definitions x <=2 uses")
     ctx.note("depth2_leaf_sets", {"one_deep_child": [l[1] for l in s1], "two_deep_children": [l[1] for l in s2]})
     for name in ("I1", "C", "I2a", "M"):
         fam = [f for f in fams if f.name == name][0]
